@@ -54,6 +54,7 @@ def frame_of(p: str) -> bytes:
 
 
 _wf = [0]
+_rf = [0]
 
 
 class ObservedConnection(APIConnection):
@@ -312,7 +313,14 @@ class Bench:
             tr = net.tr
             if tr is None or tr.closing:
                 return
-            net.reset()
+            # connection_lost(exc) comes with whatever made the transport give up: the OSError family for the network, any
+            # exception at all when protocol.data_received() itself raised (asyncio's "Fatal error: protocol.data_received()
+            # call failed") - the class never reaches a caller unwrapped
+            # (a Noise session before the handshake is done singles out ConnectionResetError - "the device reset the
+            # connection: wrong encryption setting?" - which is what the model's reset event means there: no rotation)
+            _rf[0] += 0 if self.noise else 1
+            net.reset([None, OSError(113, "No route to host"), ValueError("raised out of data_received"), None,
+                       KeyError("k"), RuntimeError("x"), TimeoutError(110, "timed out"), None, LookupError("l")][_rf[0] % 9 if not self.noise else 0])
             self.emit("reset")
         elif k == "sockFault":
             # the socket handed over next raises OSError from setsockopt / getpeername (one model event for both)
